@@ -163,12 +163,12 @@ impl P {
         let mut repeated = false;
         if ty == "repeated" {
             if !allow_repeated {
-                return Err("repeated is not allowed inside oneof".into());
+                return Err("[repeated-in-oneof] repeated is not allowed inside oneof".into());
             }
             repeated = true;
             ty = self.ident()?;
             if ty == "repeated" {
-                return Err("'repeated repeated': a repeated field of a repeated type is not valid proto3".into());
+                return Err("[repeated-repeated] 'repeated repeated': a repeated field of a repeated type is not valid proto3".into());
             }
         }
         if ty == "optional" {
@@ -179,7 +179,7 @@ impl P {
         let number = self.num()?;
         self.sym(';')?;
         if number <= 0 || number > 536_870_911 || (19000..=19999).contains(&number) {
-            return Err(format!("field number {number} of {name} is not allowed"));
+            return Err(format!("[bad-field-number] field number {number} of {name} is not allowed"));
         }
         Ok(Field { name, number: number as u32, ty: ptype(&ty), repeated, oneof })
     }
@@ -207,11 +207,11 @@ pub fn parse(text: &str) -> Result<Schema, String> {
                 saw_syntax = true;
             }
             "package" => {
-                s.package = p.ident()?;
+                s.package = p.ident().map_err(|e| format!("[bad-package-name] {e}"))?;
                 p.sym(';')?;
                 for part in s.package.split('.') {
                     if part.is_empty() || part.chars().next().map_or(true, |c| c.is_ascii_digit()) {
-                        return Err(format!("package name {} is not a valid identifier path", s.package));
+                        return Err(format!("[bad-package-name] package name {} is not a valid identifier path", s.package));
                     }
                 }
             }
@@ -236,21 +236,21 @@ pub fn parse(text: &str) -> Result<Schema, String> {
                     let n = p.num()?;
                     p.sym(';')?;
                     if vals.iter().any(|(x, _)| *x == vn) {
-                        return Err(format!("enum {name}: value name {vn} twice"));
+                        return Err(format!("[name-defined-twice] enum {name}: value name {vn} twice"));
                     }
                     if vals.iter().any(|(_, x)| *x == n) {
-                        return Err(format!("enum {name}: number {n} twice (needs allow_alias)"));
+                        return Err(format!("[enum-number-twice] enum {name}: number {n} twice (needs allow_alias)"));
                     }
                     vals.push((vn, n));
                 }
                 if vals.is_empty() {
-                    return Err(format!("enum {name} has no values"));
+                    return Err(format!("[enum-empty] enum {name} has no values"));
                 }
                 if vals[0].1 != 0 {
-                    return Err(format!("enum {name}: the first value must be 0 in proto3"));
+                    return Err(format!("[enum-first-not-zero] enum {name}: the first value must be 0 in proto3"));
                 }
                 if s.enums.contains_key(&name) || s.messages.contains_key(&name) {
-                    return Err(format!("{name} is defined twice"));
+                    return Err(format!("[name-defined-twice] {name} is defined twice"));
                 }
                 s.order.push(name.clone());
                 s.enums.insert(name, vals);
@@ -281,7 +281,7 @@ pub fn parse(text: &str) -> Result<Schema, String> {
                                 n += 1;
                             }
                             if n == 0 {
-                                return Err(format!("message {name}: oneof {on} has no fields"));
+                                return Err(format!("[empty-oneof] message {name}: oneof {on} has no fields"));
                             }
                         }
                         Some(_) => fields.push(p.field(None, true)?),
@@ -290,17 +290,17 @@ pub fn parse(text: &str) -> Result<Schema, String> {
                 }
                 for (i, f) in fields.iter().enumerate() {
                     if fields[..i].iter().any(|g| g.number == f.number) {
-                        return Err(format!("message {name}: field number {} twice", f.number));
+                        return Err(format!("[field-number-twice] message {name}: field number {} twice", f.number));
                     }
                     if fields[..i].iter().any(|g| g.name == f.name) || fields.iter().any(|g| g.oneof.as_deref() == Some(f.name.as_str())) {
-                        return Err(format!("message {name}: field name {} twice", f.name));
+                        return Err(format!("[name-defined-twice] message {name}: field name {} twice", f.name));
                     }
                     if RESERVED_WORDS.contains(&f.name.as_str()) && false {
                         // keywords are legal field names in proto3
                     }
                 }
                 if s.enums.contains_key(&name) || s.messages.contains_key(&name) {
-                    return Err(format!("{name} is defined twice"));
+                    return Err(format!("[name-defined-twice] {name} is defined twice"));
                 }
                 s.order.push(name.clone());
                 s.messages.insert(name, fields);
@@ -316,7 +316,7 @@ pub fn parse(text: &str) -> Result<Schema, String> {
     for (en, vals) in &s.enums {
         for (vn, _) in vals {
             if let Some(other) = seen.insert(vn.as_str(), en.as_str()) {
-                return Err(format!("enum value name {vn} is used by {other} and {en} (enum values are siblings of their type)"));
+                return Err(format!("[name-defined-twice] enum value name {vn} is used by {other} and {en} (enum values are siblings of their type)"));
             }
         }
     }
@@ -325,7 +325,7 @@ pub fn parse(text: &str) -> Result<Schema, String> {
         for f in fields {
             if let PType::Named(n) = &f.ty {
                 if !n.contains('.') && !s.messages.contains_key(n) && !s.enums.contains_key(n) {
-                    return Err(format!("message {mn}: field {} has the undefined type {n}", f.name));
+                    return Err(format!("[undefined-type] message {mn}: field {} has the undefined type {n}", f.name));
                 }
             }
         }
